@@ -87,7 +87,7 @@ def shards(tier):
         k = {1: 1, 2: 1, 3: 2, 4: 8, 5: 16, 6: 64}[n]
         for i in range(k):
             out.append({"kind": "tree", "n": n, "slice": [i, k], "thin": tier == "quick" and n == 5})
-    out += [{"kind": "value"}, {"kind": "free"}, {"kind": "competing"}, {"kind": "headers"}, {"kind": "chain"}]
+    out += [{"kind": "value"}, {"kind": "free"}, {"kind": "competing"}, {"kind": "headers"}, {"kind": "chain"}, {"kind": "high"}]
     return out
 
 
@@ -125,6 +125,11 @@ def run_shard(shard, ctx):
     elif kind == "headers":
         for a, b in itertools.product(SEQS, SEQS):
             run_case({"kind": "headers", "seqs": [a, b]}, ctx)
+    elif kind == "high":
+        # values in file objects beyond 4 GiB / 8 GiB, aliasing low file objects modulo 2^32
+        for base in (0xFFFFF000, 0x1_0000_0000, 0x1_0004_0000, 0x2_0004_1000, 0x7FFF_FFFF_F000):
+            for nt in (1, 2):
+                run_case({"kind": "high", "base": base, "ntables": nt}, ctx)
     elif kind == "chain":
         for n in (3, 5):
             for fi in range(0, len(forests(n)), 3):
@@ -214,12 +219,50 @@ def run_case(case, ctx):
         kw = dict(seqs=tuple(case["seqs"]))
         nontrivial = case["seqs"][0] != case["seqs"][1]
         ctx.outcome("headers")
+    elif kind == "high":
+        tree = None
     else:
         tree = tree_from_shape(forests(case["n"])[case["forest"]], 3)
         tree["configuration"][1]["bigleaf"] = (B.T_ARR, b"\x11" * 0x900)
         kw = dict(ntables=case["ntables"], second_object_table=True)
         nontrivial = True
         ctx.outcome("object-table-chain")
+    if kind == "high":
+        tree = {"configuration": (B.T_NODE, {
+            "low-a": (B.T_ARR, b"\x11" * 0x900), "high-s": (B.T_STR, "h" * 0x500), "n": (B.T_NODE, {"high-a": (B.T_ARR, bytes(range(256)) * 9),
+                                                                                                   "i": (B.T_INT, -5)}),
+            "low-s": (B.T_STR, "l" * 0x480)})}
+        nontrivial = True
+        ctx.outcome("value")
+        ctx.nontrivial += 1
+        # low file objects at 0x40000.., the same tree again with its file objects at `base` (aliases modulo 2^32 when base
+        # is 0x1_0004_0000): build two images and merge the high objects into one sparse image
+        low = B.build(tree, ntables=case["ntables"])
+        himg = B.build(tree, ntables=case["ntables"], fileobj_base=case["base"], fileobj_gap=0x3000, as_image=True)
+        # keep low decoys: the low image's file-object bytes stay in place under the high image's first 1 MiB
+        from mc.vfile import Image
+
+        merged = Image("hyperv-high")
+        head = himg.ext[0][2]
+        merged.put(0, head[:0x40000] + low[0x40000:])
+        for off, kind_, pl, ln in himg.ext[1:]:
+            if kind_ == 0:
+                merged.put(off, pl, meta=False)
+            else:
+                merged.put_pattern(off, ln, pl[0], pl[1])
+        expected = B.plain(tree)
+        ctx.transitions += 1
+        ctx.states += 1
+        with ctx.watch(case):
+            try:
+                hf = HyperVFile(merged.sparse(log=False))
+                got = hf.as_dict()
+            except Exception as e:
+                ctx.violation(case, {"subject": "hyperv.high", "kind": "exception", "exc": type(e).__name__}, {"exception": repr(e)[:300]})
+                return
+            if not _same(got, expected) or not _walk_values(hf, expected):
+                ctx.violation(case, {"subject": "hyperv.high", "kind": "tree-mismatch"}, {"got": repr(got)[:300]})
+        return
     if nontrivial:
         ctx.nontrivial += 1
     img = B.build(tree, **kw)
